@@ -489,9 +489,19 @@ pub fn run_c15(ctx: &Ctx) -> i32 {
         for it in 0..ctx.tier.pick(150usize, 3000) {
             let k = rng.gen_range(1..=m);
             let key = (rand_d4(&mut rng), f(0), f(3));
-            let supplied: Vec<Vec<F>> = (0..k).map(|_| {
-                let mut v = crate::wrapcheck::random_inner(&mut rng, n, Some(key), false);
+            // caller-supplied all-dummy inners (zero block hash) may sit anywhere, also BEFORE real ones: the committed
+            // order must still be the supplied order; at least one inner stays real (commit refuses all-dummy batches)
+            let real_at = rng.gen_range(0..k);
+            let interleave = it % 3 != 0;
+            let supplied: Vec<Vec<F>> = (0..k).map(|i| {
+                let dummy = interleave && i != real_at && rng.gen_bool(0.5);
+                let mut v = crate::wrapcheck::random_inner(&mut rng, n, Some(key), dummy);
                 for j in 1..4 { v[j] = f(u(v[j]) & M32); }
+                if dummy {
+                    // distinguishable from the padding template and from other supplied dummies
+                    v[7] = f(rng.gen_range(1..=M32));
+                    rep.count("public:caller_supplied_dummy_inner");
+                }
                 v
             }).collect();
             let proofs: Vec<Proof> = supplied.iter().map(|v| fake_inner.prove(v).unwrap()).collect();
